@@ -167,6 +167,10 @@ func (g *UndirectedMatrix) Nodes() graph.Nodes {
 // RemoveEdge removes the edge with the given end point IDs from the graph, leaving the terminal
 // nodes. If the edge does not exist it is a no-op.
 func (g *UndirectedMatrix) RemoveEdge(fid, tid int64) {
+	if fid == tid {
+		// There are no self edges: the diagonal holds the self weight.
+		return
+	}
 	if !g.has(fid) {
 		return
 	}
